@@ -12,8 +12,9 @@ One 8-byte record (`!BBBBHBx`) per zone.  The decoder
   fewer are left), then advances by `repeat_length` (a slice: advancing past the end leaves `b""`),
 * never looks at `non_repeat_length`: non-repeat bytes, if announced, are read as record data.
 
-The encoder tests `if set_point:` / `if temperature:` - `None` **and 0.0** give the "invalid" codes
-0xFF / 0x07FF.  A set-point outside 10.0 … 35.5 °C makes `struct.pack` raise `struct.error`.
+The encoder tests `if set_point:` - `None` **and 0.0** give the "invalid" set-point code 0xFF - and
+`if temperature is not None:` (only `None` gives the "invalid" temperature code 0x07FF).  A set-point outside
+10.0 … 35.5 °C makes `struct.pack` raise `struct.error`.
 -/
 namespace PyAirtouch.Model.At5.C021
 open PyAirtouch.Model PyAirtouch.Model.At5.Utils PyAirtouch.Gen.At5.XC021ZoneStatus
@@ -52,10 +53,11 @@ def encSetPoint : Option Int → Int
   | none => INVALID_SET_POINT
   | some sp => if sp = 0 then INVALID_SET_POINT else encodeSetPoint sp
 
-/-- `_encode_temperature`: `if temperature:` is false for `None` and for 0.0 -/
+/-- `_encode_temperature`: `if temperature is not None:` - only `None` gives the "invalid" code
+    (0.0 °C is an ordinary temperature, code 0x01F4) -/
 def encTemp : Option Int → Nat
   | none => INVALID_TEMPERATURE
-  | some t => if t = 0 then INVALID_TEMPERATURE else mask11 (encodeTemperature t)
+  | some t => mask11 (encodeTemperature t)
 
 def encRec (z : ZoneStatusData) : Except EncErr Bytes := do
   let b1 := z.zone_number % 64 + z.power_state.toNat * 64
@@ -131,18 +133,32 @@ def canon : Msg → String
 
 /-! ### well-formedness: field values in their protocol domains
 
-`t ≠ 0` excludes a zone temperature of exactly 0.0 °C: the decoder produces it (code 0x01F4 with a sensor)
-but the encoder's `if temperature:` turns it into the "no temperature" code 0x07FF - the round trip is
-FALSE for the real code there (finding).  The set-point range is 10.0 … 35.4 °C (codes 0 … 254; 35.5 °C
-would be the code 0xFF that means "no set-point"). -/
+A temperature is only reported with a sensor and lies in -50.0 … 150.0 °C (codes 0 … 2000; larger codes decode
+to `None`).  The set-point range is 10.0 … 35.4 °C (codes 0 … 254; 35.5 °C would be the code 0xFF that means
+"no set-point"). -/
 
 def WFRec (z : ZoneStatusData) : Prop :=
   z.zone_number < 64 ∧ z.damper_percentage < 128 ∧
   (∀ sp, z.set_point = some sp → 100 ≤ sp ∧ sp ≤ 354) ∧
-  (∀ t, z.temperature = some t → z.has_sensor = true ∧ -500 ≤ t ∧ t ≤ 1500 ∧ t ≠ 0)
+  (∀ t, z.temperature = some t → z.has_sensor = true ∧ -500 ≤ t ∧ t ≤ 1500)
 
 def WF : Msg → Prop
   | .request => True
   | .status zs => ∀ z ∈ zs, WFRec z
+
+/-- run-time test of `WFRec` -/
+def wfRecBool (z : ZoneStatusData) : Bool :=
+  decide (z.zone_number < 64) && decide (z.damper_percentage < 128) &&
+  (match z.set_point with
+   | none => true
+   | some sp => decide (100 ≤ sp) && decide (sp ≤ 354)) &&
+  (match z.temperature with
+   | none => true
+   | some t => z.has_sensor && decide (-500 ≤ t) && decide (t ≤ 1500))
+
+/-- run-time test of `WF` -/
+def wfBool : Msg → Bool
+  | .request => true
+  | .status zs => zs.all wfRecBool
 
 end PyAirtouch.Model.At5.C021
